@@ -15,7 +15,7 @@ DESCRIPTION = {
              "verification (recover ClientKey from the proof, H(ClientKey)==StoredKey; ServerSignature) with SaltedPassword from hashlib / argon2 raw API (SCRAM), "
              "cryptography's Ed25519 public-key verification over challenge XOR channel-id (cryptosign).  CRA authenticators are re-used for further challenges with the same salt and other iteration counts / key lengths.  Every single-bit alteration and several re-spellings of a TOTP ticket are rejected by check_totp.  Exhaustive tampering: every single-bit flip of the SCRAM "
              "server signature (256) must be rejected by on_welcome, as must any WELCOME that was not preceded by a processed CHALLENGE (incl. the signature computable from empty inputs); every single-bit flip of an Ed25519 signature (512) rejected; altered challenge/key/salt "
-             "changes the signature.  Whole-session SCRAM job (Session.add_authenticator against a scripted router) x 9 WELCOME authextra variants: joins only for the correct server signature.  Non-trivial = non-ASCII secret, boundary length, or a tampered value; distinct by (mechanism, parameter digest)."),
+             "changes the signature.  Whole-session SCRAM job (Session.add_authenticator against a scripted router) x 9 WELCOME authextra variants: joins only for the correct server signature.  Cryptosign authenticators are also built with an explicit public key and through create_authenticator.  Non-trivial = non-ASCII secret, boundary length, or a tampered value; distinct by (mechanism, parameter digest)."),
     "assumptions": ["Argon2 costs kept small (time<=3, memory<=64KiB) to keep the search wide", "TOTP clock = autobahn.wamp.auth.time patched to drawn instants"],
 }
 
